@@ -482,7 +482,23 @@ pub struct CompCase {
 
 pub struct CompCheck;
 
-const N_COMPONENTS: u8 = 35;
+const N_COMPONENTS: u8 = 36;
+
+/// An evaluator that repairs the solutions it is given in place before evaluating them (Lamarckian / repairing
+/// evaluation): whatever it does to an individual, solution and objective value stay together.
+pub struct Repairing;
+impl mahf::problems::Evaluate for Repairing {
+    type Problem = RealP;
+    fn evaluate(&mut self, problem: &RealP, _state: &mut State<RealP>, individuals: &mut [Individual<RealP>]) {
+        use mahf::problems::ObjectiveFunction;
+        for i in individuals {
+            for x in i.solution_mut().iter_mut() {
+                *x = (*x * 4.0).round() / 4.0;
+            }
+            i.evaluate_with(|s| problem.objective(s));
+        }
+    }
+}
 
 /// A user-style mutation that validates AFTER writing: the solution of individual `fail_at` is already modified when
 /// `mutate` reports the error. Run through the crate's default `mutation::mutation` driver.
@@ -606,7 +622,7 @@ fn comp_oracle(c: &CompCase, cl: &mut u64) -> Result<(), Failure> {
         (s >> 11) as f64 / (1u64 << 53) as f64
     };
     match which {
-        0..=21 | 34 => {
+        0..=21 | 34 | 35 => {
             // variant 0: wide domain, Rastrigin, coordinates anywhere in or slightly outside the domain;
             // variants 1-3: narrow domains (bounds of magnitude <= 1, where neighbouring floats are <= EPSILON apart),
             // an objective that depends on every bit of the solution, and most coordinates within two representable
@@ -672,6 +688,7 @@ fn comp_oracle(c: &CompCase, cl: &mut u64) -> Result<(), Failure> {
                 18 => ("RandomReplacement", replacement::RandomReplacement::new::<RealP>(2), vec![pop, mk(2)]),
                 19 => ("RouletteWheel", selection::RouletteWheel::new::<RealP>(3, 0.1), vec![pop]),
                 20 => ("FullyRandom", selection::FullyRandom::new::<RealP>(3), vec![pop]),
+                35 => ("PopulationEvaluator with an evaluator that repairs solutions in place", mahf::components::evaluation::PopulationEvaluator::<mahf::identifier::Global>::new_with(), vec![mk(1), pop]),
                 34 => {
                     *cl |= 8;
                     let fail_at = if size == 0 { 0 } else { (c.seed >> 8) as usize % (size + 1) };
@@ -680,6 +697,9 @@ fn comp_oracle(c: &CompCase, cl: &mut u64) -> Result<(), Failure> {
                 _ => ("EventHorizon", replacement::bh::EventHorizon::new::<RealP>(), vec![pop]),
             };
             let mut st = state_with(pops, c.seed);
+            if which == 35 {
+                st.insert(mahf::state::common::Evaluator::<RealP, mahf::identifier::Global>::new(Repairing));
+            }
             if which == 21 {
                 let mut b = BestIndividual::<RealP>::new();
                 if let Some(i) = st.populations().current().iter().min_by_key(|i| *i.objective()) {
@@ -744,7 +764,7 @@ fn comp_oracle(c: &CompCase, cl: &mut u64) -> Result<(), Failure> {
 }
 
 pub fn run_all(ctx: &mut Ctx, replay: Option<&Path>) {
-    ctx.rule("(a) individual-level: histories of new/new_unevaluated/evaluate_with (two different objective functions)/set_objective/solution_mut (with and without a change)/clone/clone_from/Vec::clone_from/clone_from_slice/into_solution/as_solutions/as_solutions_mut/into_single(_ref)/best_individual/into_individuals/moves through the population stack over 3 slots against an evaluated-flag model, probing is_evaluated/get_objective/objective()/solution after every step; non-trivial = solution_mut on an evaluated individual followed by a read. (b) run-level: every shipped template with valid parameters; after EVERY component execution every individual reachable in any scope (population stack, best-so-far, archive, swarm and molecule memories) that is evaluated must carry bit-exactly f(solution); non-trivial = run with >= 3 passes in which some step changed a solution. (c) component-level: 34 shipped components on prepared evaluated populations (real-valued ones also on narrow domains with coordinates within two representable values of a bound and an objective that depends on every bit of the solution), plus the crate's `mutation::mutation` driver around a harness Mutation that reports an error after it has written to the solution (the state left behind by the Err is audited too), same audit; distinct by case");
+    ctx.rule("(a) individual-level: histories of new/new_unevaluated/evaluate_with (two different objective functions)/set_objective/solution_mut (with and without a change)/clone/clone_from/Vec::clone_from/clone_from_slice/into_solution/as_solutions/as_solutions_mut/into_single(_ref)/best_individual/into_individuals/moves through the population stack over 3 slots against an evaluated-flag model, probing is_evaluated/get_objective/objective()/solution after every step; non-trivial = solution_mut on an evaluated individual followed by a read. (b) run-level: every shipped template with valid parameters; after EVERY component execution every individual reachable in any scope (population stack, best-so-far, archive, swarm and molecule memories) that is evaluated must carry bit-exactly f(solution); non-trivial = run with >= 3 passes in which some step changed a solution. (c) component-level: 34 shipped components on prepared evaluated populations (real-valued ones also on narrow domains with coordinates within two representable values of a bound and an objective that depends on every bit of the solution), plus the evaluation step with a harness evaluator that repairs solutions in place, and the crate's `mutation::mutation` driver around a harness Mutation that reports an error after it has written to the solution (the state left behind by the Err is audited too), same audit; distinct by case");
     ctx.assume("the harness objective is a pure function of the solution; set_objective is only used with f(solution)");
     let i = IndCheck;
     let c = CompCheck;
